@@ -102,6 +102,13 @@ def build(run):
         ("only linear", lambda: f * v * dx + g * v * ds(2)),
         ("only bilinear", lambda: u * v * dx + exp(f) * u * v * ds),
         ("functional part too", lambda: u * v * dx + f * v * dx + f * g * dx),
+        # list tensors: which component carries the argument (first / last / all), zeros elsewhere
+        ("list tensor [u, 0]", lambda: dot(as_vector([u, 0]), vv) * dx - f * vv[0] * dx),
+        ("list tensor [0, u]", lambda: dot(as_vector([0, u]), vv) * dx - f * vv[1] * dx),
+        ("list tensor [f*u, 0] + [u, u]", lambda: dot(as_vector([f * u, 0]), vv) * dx + dot(as_vector([u, u]), vv) * ds - g * vv[0] * ds),
+        ("list tensor matrix [[u,0],[0,0]]", lambda: inner(ufl.as_matrix([[u, 0], [0, 0]]), grad(vv)) * dx - f * vv[0] * dx),
+        ("list tensor matrix [[0,0],[grad u . w, 0]]", lambda: inner(ufl.as_matrix([[0, 0], [dot(grad(u), w_), 0]]), grad(vv)) * dx + dot(w_, vv) * dx),
+        ("list tensor of test components [v0, 0]", lambda: u * dot(as_vector([vv[0], 0]), w_) * dx - f * dot(as_vector([vv[1], 0]), w_) * dx),
     ]
 
     for fname, mkF in forms:
